@@ -26,8 +26,7 @@
    interleaves these lists arbitrarily.  [LCrash] drops all volatile state at any point.
 
    Not modelled (stated boundary): robots.txt (checks run with --no-robots; C20), cookies,
-   authentication loop, FTP, plugins/hooks, the >= 1000 children mid-scrape flush (same
-   inserts in the same order, only more commit points while the parent is in progress),
+   authentication loop, FTP, plugins/hooks,
    the scraper's link order (a set iteration order: an input of the site).
 
    The hostnames table (sqltable.add_many, after the F33 repair: only rows of level 0, i.e.
@@ -144,6 +143,15 @@ Inductive label :=
 
 Definition start_info (u : url) : rinfo := mkInfo u 0 None u u.
 
+(* the size at which ItemSession.add_url flushes its batch (wpull/pipeline/session.py; tied to the source by
+   Gen/Consts.v gen_child_batch_size, Proofs/ConstsAgree.v) *)
+Definition flush_size : nat := 1000.
+Fixpoint chunks (fuel : nat) (l : list rinfo) : list (list rinfo) :=
+  match fuel with
+  | O => []
+  | S f => match l with [] => [] | _ => firstn flush_size l :: chunks f (skipn flush_size l) end
+  end.
+
 Section Plan.
   Variable site : url -> page.
   (* the filter verdict: is_redirect, tested URL, record (fixed columns), try_count *)
@@ -161,9 +169,10 @@ Section Plan.
   Definition children (p : rinfo) (f : url) (links : list (url * bool)) : list rinfo :=
     filter (fun ci => in_scope false f ci 0) (map (child_info p) links).
 
-  (* add_many of an empty batch opens no transaction *)
-  Definition flush (l : list rinfo) : list action :=
-    match l with [] => [] | _ => [AAddMany l] end.
+  (* ItemSession.add_url commits the batch of admitted children whenever it has grown to [flush_size] entries
+     (in the middle of the scrape); set_status / skip commit the remainder; add_many of an empty batch opens
+     no transaction.  A kill may fall between two of these commits. *)
+  Definition flush (l : list rinfo) : list action := map AAddMany (chunks (length l) l).
 
   (* _process_loop: [fuel] = redirects still allowed (RedirectTracker.exceeded) *)
   Fixpoint fetch (fuel : nat) (p : rinfo) (tries : N) (u : url) (initial : bool) : list action :=
